@@ -13,10 +13,10 @@
 
 #define MAXF 48
 
-enum { CL_W32, CL_STRADDLE, CL_EXACT, CL_SHORT, CL_SEG, CL_BITOFF, CL_RDOVER, CL_EMPTYSEG, CL_W32EMPTY, CL_OPAQUE, CL_EXTRACT_BITS };
+enum { CL_W32, CL_STRADDLE, CL_EXACT, CL_SHORT, CL_SEG, CL_BITOFF, CL_RDOVER, CL_EMPTYSEG, CL_W32EMPTY, CL_OPAQUE, CL_EXTRACT_BITS, CL_RESEG };
 static const char *const class_names[] = {
     "field_32bit", "field_straddles_cache", "buffer_exactly_full", "buffer_too_small",
-    "read_segmented", "read_bit_offset", "read_past_end", "empty_segment", "w32_on_empty_cache", "read_from_plain_memory", "extract_bits_into_writer", NULL };
+    "read_segmented", "read_bit_offset", "read_past_end", "empty_segment", "w32_on_empty_cache", "read_from_plain_memory", "extract_bits_into_writer", "block_resegmented_before_reading", NULL };
 
 static void ref_pack(const uint8_t *w, const uint32_t *v, int n, uint8_t *out, size_t outsz)
 {
@@ -163,7 +163,7 @@ static int run(const uint8_t *tp_, size_t len, struct vp_report *rep, unsigned f
     }
 
     /* ---- block bit-stream reader over a segmentation ---- */
-    int nseg = 0, bitoff = 0; bool emptyseg = false; bool rdover = false;
+    int nseg = 0, bitoff = 0; bool emptyseg = false; bool rdover = false; bool reseg = false;
     if (ret == 0) {
         struct fix_mem fm;
         if (fix_mem_init(&fm, 0, 0, 0) != 0) { free(buf); free(expect); return vp_internal(rep, "fix_mem_init"); }
@@ -222,6 +222,52 @@ static int run(const uint8_t *tp_, size_t len, struct vp_report *rep, unsigned f
         }
         if (render) vp_render(rep, "\n");
         h = vp_hash_mix(h, (uint64_t)nseg << 8 | bitoff);
+        /* re-segmentation that leaves the content as it is (the readers must not care how the block came to be segmented, nor what
+         * was accessed before): split at a tape-chosen offset and append the tail again, an access near the end, removal and
+         * restoration of the first octets (resize + prepend). */
+        if (ret == 0 && ubuf != NULL && streamlen > 0) {
+            uint8_t sh = tp_u8(&t);
+            h = vp_hash_mix(h, 0x5e00 | sh);
+            int k = 1 + (sh >> 6); bool shrunk = false;
+            if (sh & 0x20) {            /* the first k octets are taken away now and given back after the other steps */
+                size_t lin = 0;
+                if (ubase_check(ubuf_block_size_linear(ubuf, 0, &lin)) && lin > (size_t)k && streamlen > (size_t)k && ubase_check(ubuf_block_resize(ubuf, k, -1))) {
+                    shrunk = true;
+                    if (render) vp_render(rep, "  resize(%d,-1)\n", k);
+                }
+            }
+            size_t cur = streamlen - (shrunk ? k : 0);
+            for (int q = 0; q < sh % 4 && ret == 0; q++) {
+                size_t off = tp_u8(&t) % (cur + 1);
+                if (off == 0 || off >= cur) continue;
+                struct ubuf *tail = ubuf_block_split(ubuf, (int)off);
+                if (tail == NULL) { ret = vp_internal(rep, "ubuf_block_split(%zu) of %zu octets", off, cur); break; }
+                if (!ubase_check(ubuf_block_append(ubuf, tail))) { ubuf_free(tail); ret = vp_internal(rep, "ubuf_block_append after split"); break; }
+                if (render) vp_render(rep, "  split(%zu)+append\n", off);
+                reseg = true;
+            }
+            if (ret == 0 && (sh & 0x10) && cur > 0) {
+                /* an access that leaves the segment cache somewhere: at the end, or at or before the offset the reader will start from */
+                uint8_t ab = tp_u8(&t), tmp;
+                size_t acc = (ab & 1) ? cur - 1 : (size_t)(ab >> 1) % (size_t)(lead + 1);
+                if (acc >= cur) acc = cur - 1;
+                ubuf_block_extract(ubuf, (int)acc, 1, &tmp);
+                if (render) vp_render(rep, "  access at offset %zu\n", acc);
+            }
+            if (ret == 0 && shrunk) {
+                if (!ubase_check(ubuf_block_prepend(ubuf, k))) ret = vp_internal(rep, "ubuf_block_prepend(%d) after resize(%d,-1)", k, k);
+                else { if (render) vp_render(rep, "  prepend(%d)\n", k); reseg = true; }
+            }
+            if (ret == 0) {         /* the harness' own premise: the content is what it was (read through a duplicate: the block's own segment cache stays as the steps above left it) */
+                uint8_t *chk = malloc(streamlen);
+                size_t sz = 0;
+                struct ubuf *d = ubuf_dup(ubuf);
+                if (!chk || !d || !ubase_check(ubuf_block_size(d, &sz)) || sz != streamlen || !ubase_check(ubuf_block_extract(d, 0, -1, chk)) || memcmp(chk, src, streamlen))
+                    ret = vp_fail(rep, "C18/stream/content-after-resegmentation", "after split+append / resize+prepend (which leave the content as it is) the block of %zu octets no longer reads back the octets written", streamlen);
+                if (d) ubuf_free(d);
+                free(chk);
+            }
+        }
         if (ret == 0 && total > 0) {
             struct ubuf_block_stream s;
             if (!ubase_check(ubuf_block_stream_init_bits(&s, ubuf, lead * 8 + bitoff)))
@@ -342,6 +388,7 @@ static int run(const uint8_t *tp_, size_t len, struct vp_report *rep, unsigned f
     if (bitoff) rep->classes |= 1u << CL_BITOFF;
     if (rdover || over_extra) rep->classes |= 1u << CL_RDOVER;
     if (emptyseg) rep->classes |= 1u << CL_EMPTYSEG;
+    if (reseg) rep->classes |= 1u << CL_RESEG;
     if (w32empty) rep->classes |= 1u << CL_W32EMPTY;
     /* NT: a 32-bit field or a field straddling the cache boundary, and (buffer exactly full or short or segmented read) */
     rep->nontrivial = (w32 || straddle) && (bufsz <= need) && n >= 2;
